@@ -22,9 +22,10 @@ def baseline_ok():
 
 def main():
     from mutants import M, EXTRA
+    FIRST = set()
     try:
-        from mutants_ext import M as M2, EXTRA as E2
-        M = M + M2; EXTRA = dict(EXTRA, **E2)
+        from mutants_ext import M as M2, EXTRA as E2, FIRST as F2
+        M = M + M2; EXTRA = dict(EXTRA, **E2); FIRST = F2
     except ImportError:
         pass
     tier = "quick"
@@ -51,9 +52,9 @@ def main():
         for ef, eo, en in edits:
             p = os.path.join(REPO, ef)
             s = open(p).read()
-            if s.count(eo) != 1:
+            if s.count(eo) != 1 and not (name in FIRST and s.count(eo) > 1):
                 print("%s: anchor text found %d times in %s" % (name, s.count(eo), ef)); okk = False; break
-            open(p, "w").write(s.replace(eo, en))
+            open(p, "w").write(s.replace(eo, en, 1))
         if not okk:
             clean(); rows.append((name, props, "ANCHOR-MISSING", {})); continue
         sh("git diff > %s" % os.path.join(ROOT, "selftest", "mutants", name + ".diff"), cwd=REPO)
@@ -66,6 +67,7 @@ def main():
             rc, out = sh(["./check", pid, tier], cwd=ROOT)
             res[pid] = (rc, round(time.time() - t0, 1))
         clean()
+        sh("rm -rf %s/.work/* %s/replays" % (ROOT, ROOT))
         verdict = "CAUGHT" if all(v[0] == 1 for v in res.values()) else "MISSED"
         rows.append((name, props, verdict, res))
         print("%-40s %-7s %s" % (name, verdict, " ".join("%s:rc=%d(%.0fs)" % (k, v[0], v[1]) for k, v in res.items())), flush=True)
